@@ -242,6 +242,8 @@ func C18(tier string) int {
 			}
 			// (a) bulk
 			dbA := c18Fresh()
+			tsBefore := gmodel.Timestamps(dbA, []string{"g1", "g2"})
+			emptyObs, _ := gmodel.ObserveDB(dbA, c18U)
 			srvA := newServer(dbA)
 			stream := &c18Stream{}
 			for _, k := range st {
@@ -275,6 +277,20 @@ func C18(tier string) int {
 			if pa != "" || pb != "" {
 				run.Report(vf.Violation{Sig: "bulk|observe-panic", Detail: fmt.Sprintf("BulkAdd%s: %s %s", desc, pa, pb), Replay: rep})
 				return
+			}
+			// the timestamp of a graph that the stream changed must have moved (as it does when the same
+			// elements are added one by one): clients use it to decide whether cached results are still good
+			tsAfter := gmodel.Timestamps(dbA, []string{"g1", "g2"})
+			for _, g := range []string{"g1", "g2"} {
+				changed := false
+				for _, c := range []string{"list-v", "list-e"} {
+					if oa[c][g] != emptyObs[c][g] {
+						changed = true
+					}
+				}
+				if changed && tsAfter[g] == tsBefore[g] {
+					run.Report(vf.Violation{Sig: "bulk|timestamp-not-moved|" + c18Class(st, kinds), Detail: fmt.Sprintf("BulkAdd%s changed graph %s but its timestamp is still %s", desc, g, tsAfter[g]), Replay: rep})
+				}
 			}
 			seen := map[string]bool{}
 			for _, m := range gmodel.Diff(normGen(ob), normGen(oa)) {
